@@ -84,17 +84,24 @@ impl Checkpoint {
         Ok(cp)
     }
 
-    // Copy all current state into the file.
+    // Copy all current state into the file. As in Run::save, the data is written to a
+    // temporary file, flushed, and renamed into place: a save that fails (e.g. no space
+    // left) is reported instead of leaving an empty file behind a successful exit, and the
+    // previous checkpoint stays intact until the new one is complete.
     pub(crate) fn save(&mut self) -> Result<(), MonorailError> {
+        let tmp_path = self.path.with_extension("zst.tmp");
         let file = fs::OpenOptions::new()
             .write(true)
             .truncate(true)
             .create(true)
-            .open(&self.path)?;
+            .open(&tmp_path)?;
         let bw = io::BufWriter::new(file);
         let mut encoder = zstd::stream::write::Encoder::new(bw, 3)?;
         serde_json::to_writer(&mut encoder, self)?;
-        encoder.finish()?;
+        let mut bw = encoder.finish()?;
+        bw.flush()?;
+        bw.get_ref().sync_all()?;
+        fs::rename(&tmp_path, &self.path)?;
         Ok(())
     }
 }
